@@ -30,6 +30,7 @@ void verif_native_unreachable(const char *what);
 #define VERIF_UNREACHABLE() verif_native_unreachable("unreachable")
 #define VERIF_TRAP() verif_native_unreachable("trap")
 #endif
+void *malloc(size_t); void free(void *);
 void *memcpy(void *, const void *, size_t);
 void *memmove(void *, const void *, size_t);
 void *memset(void *, int, size_t);
@@ -72,4 +73,5 @@ static inline uint32_t verif_uadd_sat32(uint32_t a, uint32_t b) { return a + b <
   _Bool __at_cas##W(uint##W##_t *p, uint##W##_t *expected, uint##W##_t desired, int so, int fo, int weak);
 AT_DECL(8) AT_DECL(16) AT_DECL(32) AT_DECL(64)
 void __at_fence(int order);
+double __fp_mul_hook(double a, double b);
 #endif
